@@ -142,6 +142,14 @@ type Party struct {
 	keyFp   []byte
 	skip    map[int]bool // outputs the network drops (never delivered in FIFO order)
 	akeExp  []byte       // the most recent 40-byte value drawn (DH exponent)
+	held    []heldSecret // C08: where secrets were found by the previous scan of this party's conversation
+}
+
+// heldSecret: a region of the conversation's object graph that contained a secret when it was last scanned
+type heldSecret struct {
+	reg    *region
+	secret []byte
+	what   string
 }
 
 func (p *Party) HandleSMPEvent(e otr3.SMPEvent, pct int, q string) {
